@@ -8,6 +8,7 @@ import (
 	"fmt"
 	"os"
 	"path/filepath"
+	"runtime"
 	"sort"
 	"strings"
 
@@ -24,7 +25,19 @@ type rtProgram struct {
 	Corpus   bool
 }
 
-func compileProgram(name, src string, mroPaths []string) (*rtProgram, error) {
+// compilePanics collects programs on which the real compiler / call-graph
+// resolver panicked (reported by the C07 runner as violations).
+var compilePanics []map[string]string
+
+func compileProgram(name, src string, mroPaths []string) (p *rtProgram, err error) {
+	defer func() {
+		if e := recover(); e != nil {
+			buf := make([]byte, 3000)
+			buf = buf[:runtime.Stack(buf, false)]
+			compilePanics = append(compilePanics, map[string]string{"program": src, "panic": fmt.Sprint(e), "stack": string(buf)})
+			p, err = nil, fmt.Errorf("panic: %v", e)
+		}
+	}()
 	_, _, ast, err := syntax.ParseSourceBytes([]byte(src), "pipeline.mro", mroPaths, false)
 	if err != nil {
 		return nil, err
